@@ -300,6 +300,17 @@ def run(prog: Program, col: Collector, tier: str, refs: Optional[Refs] = None, c
                 verdict, why = False, "the terms are combined with an op other than the contraction's bin_op"
             elif cov and comb:
                 verdict = True
+    # positive evidence of a dropped operand in a hand-written pairwise fold: zip(xs[0::2], xs[1::2]) truncates to the shorter
+    # slice, so the last element of an odd-length list vanishes unless the function tests the parity of the length
+    for z in [n for n in walk_no_nested(lc.node) if isinstance(n, ast.Call) and isinstance(n.func, ast.Name) and n.func.id == "zip" and len(n.args) == 2]:
+        a, b = z.args
+        if all(isinstance(t, ast.Subscript) and isinstance(t.slice, ast.Slice) and isinstance(t.slice.step, ast.Constant) and t.slice.step.value == 2 and isinstance(t.value, ast.Name) for t in (a, b)) \
+                and a.value.id == b.value.id:
+            seq = a.value.id
+            parity = any(isinstance(n, ast.BinOp) and isinstance(n.op, ast.Mod) and isinstance(n.right, ast.Constant) and n.right.value == 2 and f"len({seq})" in norm(n.left)
+                         for n in walk_no_nested(lc.node))
+            if not parity:
+                verdict, why = False, f"`{norm(z)}` pairs the elements of `{seq}` and silently drops the last one when their number is odd (no test of len({seq}) % 2): an operand vanishes from the compiled program"
     if verdict is None:
         col.unresolved(f"{lc.fq}::fold", "the contraction is not lowered by functools.reduce over the lowered terms; the hand-written fold is not decided", lc.loc())
     else:
@@ -421,6 +432,21 @@ def run(prog: Program, col: Collector, tier: str, refs: Optional[Refs] = None, c
         col.check(all(g == filt for g in guards), f"{tf.fq}::constant predicate", f"constants are rejected by the trace filter `{filt}` itself",
                   f"captured constants are rejected with `{guards[0]}` but the tracer decides what is variable with `{filt}`: values the tracer follows "
                   "(tuples of arrays passed to stack / cat / einsum) can be frozen into the program as constants, which then ignores its inputs", tf.loc())
+    # the guard against one array bound to two inputs counts DISTINCT ids: it compares len(<set>) with len(<inputs>)
+    kwp = tf.positional[1] if len(tf.positional) > 1 else None
+    guard_found = False
+    for a in [n for n in walk_no_nested(tf.node) if isinstance(n, ast.Assert)]:
+        t = a.test
+        if isinstance(t, ast.Compare) and len(t.ops) == 1 and isinstance(t.ops[0], ast.Eq) and norm(t.comparators[0]) == f"len({kwp})" \
+                and isinstance(t.left, ast.Call) and norm(t.left.func) == "len" and isinstance(t.left.args[0], ast.Name):
+            guard_found = True
+            nm = t.left.args[0].id
+            ds = [n.value for n in walk_no_nested(tf.node) if isinstance(n, ast.Assign) and any(isinstance(x, ast.Name) and x.id == nm for x in n.targets)]
+            is_set = bool(ds) and all(isinstance(d, (ast.SetComp, ast.DictComp, ast.Set)) or (isinstance(d, ast.Call) and norm(d.func) in ("set", "frozenset")) for d in ds)
+            col.check(is_set, f"{tf.fq}::repeated inputs", "the repeated-input guard counts distinct object ids (a set)",
+                      f"`{nm}` is not a set, so `{norm(t)}` always holds: one array bound to two inputs is no longer rejected and both inputs are wired to one slot", tf.loc(a))
+    if not guard_found:
+        col.note(f"{tf.fq}::repeated inputs", "no `len(ids) == len(inputs)` guard found", tf.loc())
     # printing an op: its parameters are printed completely and in declaration order, or by name
     po = prog.funcs.get("funsor.ops.program::_print_op")
     if po is None:
